@@ -49,7 +49,9 @@ type obj struct {
 
 var texts = []string{"", "plain", "with: colon: inside", `{"json":true,"n":[1,2]}`, "esc\x1bape without marker", "\x1bjso almost", "unicode é世界", "rpc error: code = NotFound desc = fake", "50% done", "fmt verbs %s %d %v %!", "100%",
 	// long texts: a transport may be tempted to cap the status message; an embedded object must survive all the same
-	strings.Repeat("long text ", 130), strings.Repeat("x", 70000)}
+	strings.Repeat("long text ", 130), strings.Repeat("x", 70000),
+	// text that LOOKS like JSON/HTML escapes (a literal backslash followed by u003c ...), quotes, control characters
+	`regexp \u003ctag\u003e \u0026 \" \\ \n`, "ctl\x00\x01\x1f \"quoted\" <tag> & 'x'"}
 
 func main() {
 	run := ev.Parse("C19", "exploration")
@@ -270,9 +272,9 @@ func main() {
 			}
 		}
 	}
-	samples.Add("all status codes 0..16 and 99 x 25 message texts through status.Error -> FromGRPCError / Is")
+	samples.Add("all status codes 0..16 and 99 x 27 message texts through status.Error -> FromGRPCError / Is")
 	run.Finish(ev.Coverage{
 		"evaluations": evals, "distinct_nontrivial": nontriv, "samples": samples.List, "exhaustive": true,
-		"rule": "full finite product: 10 classes with a gRPC code x 12 classes x wrap depth 0..4 (each layer a single trailing %w, a leading %w, two %w verbs, or errors.Join), innermost error the class or a real OS error of the class, embedded object a struct / string / slice / map x embedded object position (none / innermost / outermost / every position for depth<=2) x 25 message texts (empty, colons, JSON, ESC without the marker, marker prefix, unicode, a fake rpc-error text, 1300 and 70000 bytes long, texts ending with the wording of each class); every other embedding is preceded by one of an unmarshalable object; plus all 17 gRPC codes and one out-of-range code x 25 texts. Every case is distinct; non-trivial = every case except the OK code",
+		"rule": "full finite product: 10 classes with a gRPC code x 12 classes x wrap depth 0..4 (each layer a single trailing %w, a leading %w, two %w verbs, or errors.Join), innermost error the class or a real OS error of the class, embedded object a struct / string / slice / map x embedded object position (none / innermost / outermost / every position for depth<=2) x 27 message texts (empty, colons, JSON, ESC without the marker, marker prefix, unicode, a fake rpc-error text, 1300 and 70000 bytes long, texts ending with the wording of each class); every other embedding is preceded by one of an unmarshalable object; plus all 17 gRPC codes and one out-of-range code x 27 texts. Every case is distinct; non-trivial = every case except the OK code",
 	})
 }
